@@ -146,7 +146,7 @@ CHECKS["C07"] = dict(
           "over the selected rows of its group, a row with a null key indexes (numpy wrap-around of -1) the extra trailing slot, which no row writes and which "
           "therefore holds the neutral value (untouched_slot_neutral); groups without a selected row likewise; container rule as decision logic. "
           "Correspondence: transform=True vs the same call with transform=False re-broadcast by the harness, for all reductions incl. var/std/median/apply, "
-          "contiguous / chunk-factorized / pre-chunked arrow keys, numpy / indexed pandas / polars values, masks."),
+          "contiguous / chunk-factorized / pre-chunked arrow keys, numpy / indexed pandas / polars values, masks. Source level (new): source_transform_eq_lookup - the ngroups + 1 slots written by the translated _group_by_reduce, fancy-indexed with the row codes (wrap of -1 to the trailing slot), give valid rows their group's definition and null-key rows the neutral value."),
     note="The public glue (index restoration, container conversion, unification of chunked codes before indexing) is tied by correspondence; size() has no values input, so no container/index rule is demanded for it.",
     technique="Lean 4 proof (lookup theorem over the kernel contract) + metamorphic differential testing against the non-transform result",
     design="§7 C07",
@@ -196,7 +196,7 @@ CHECKS["C20"] = dict(
 
 CHECKS["C16"] = dict(
     text=("Lean (exact rational arithmetic): var_identity - the one-pass formula (Sum x^2 - (Sum x)^2/n)/(n-ddof) the library evaluates equals the two-pass sample "
-          "variance Sum(x-mean)^2/(n-ddof) for every list and ddof (via Sum(x-m)^2 = Sum x^2 - 2m Sum x + n m^2); group_var_eq_two_pass - GroupBy.var end to end through the three kernel calls is that variance of the group's selected non-null values, and null exactly when the group has no more such values than ddof; apply: the "
+          "variance Sum(x-mean)^2/(n-ddof) for every list and ddof (via Sum(x-m)^2 = Sum x^2 - 2m Sum x + n m^2); group_var_eq_two_pass - GroupBy.var end to end through the three kernel calls is that variance of the group's selected non-null values, and null exactly when the group has no more such values than ddof (source_var_eq_two_pass: the same from three runs of the translated kernel); apply: the "
           "group-sorted indexer hands each label exactly its rows in ascending row order (counting-sort theorems of C02); density shares add up to 100 "
           "whenever the total is non-zero. Correspondence: var/std (ddof 0..3, int32/int64 values up to 4e9) vs two-pass Fraction arithmetic (exact on integers; on floats with offsets up to 1e8 "
           "within 16*n*eps*max|x|^2), median/quantile vs NumPy on each group's selected values, apply with scalar / fixed-length / input-aligned user "
